@@ -70,7 +70,8 @@ Stop Machine::run(uint64_t entry, uint64_t maxInsns) {
 #define STOP(k) do { st.kind = StopKind::k; st.pc = pc; st.insn = insn; return st; } while (0)
 #define FORM(id) do { ++formCount[F_##id]; if (execMap) { uint64_t o_ = (pc - execBase) >> 1; if (pc >= execBase && o_ < execParcels) execMap[o_] = (uint8_t)(F_##id + 1); } } while (0)
 #define LOADCHK(a, n) do { if (!chk(lc, (a), (n), PR)) { st.addr = (a); st.size = (n); STOP(LoadFault); } if ((a) & ((n) - 1)) ++misaligned; } while (0)
-#define STORECHK(a, n) do { if (!chk(sc, (a), (n), PW)) { st.addr = (a); st.size = (n); STOP(StoreFault); } if ((a) & ((n) - 1)) ++misaligned; } while (0)
+#define STORECHK(a, n) do { if (!chk(sc, (a), (n), PW)) { st.addr = (a); st.size = (n); STOP(StoreFault); } if ((a) & ((n) - 1)) ++misaligned; \
+		if ((a) - trackLo < trackSize) { uint64_t l0_ = ((a) - trackLo) >> 6, l1_ = ((a) + (n) - 1 - trackLo) >> 6; for (uint64_t l_ = l0_; l_ <= l1_ && (l_ << 6) < trackSize; ++l_) if (!trackBitmap[l_]) { trackBitmap[l_] = 1; trackList.push_back((uint32_t)l_); } } } while (0)
 #define RD(v) do { if (rd) x[rd] = (v); } while (0)
 
 	for (;;) {
@@ -98,12 +99,10 @@ Stop Machine::run(uint64_t entry, uint64_t maxInsns) {
 				const uint64_t uD = u53 | (((lo16 >> 5) & 3) << 6);                              // doubleword scaled
 				const uint64_t uW = u53 | (((lo16 >> 6) & 1) << 2) | (((lo16 >> 5) & 1) << 6);   // word scaled
 				switch (f3) {
-				case 1: { FORM(C_FLD); uint64_t a = x[rs1p] + uD; LOADCHK(a, 8); memcpy(&f[rdp], (const void*)(uintptr_t)a, 8); break; }
 				case 2: { FORM(C_LW); uint64_t a = x[rs1p] + uW; LOADCHK(a, 4); int32_t v; memcpy(&v, (const void*)(uintptr_t)a, 4); x[rdp] = (uint64_t)(int64_t)v; break; }
 				case 3: { FORM(C_LD); uint64_t a = x[rs1p] + uD; LOADCHK(a, 8); memcpy(&x[rdp], (const void*)(uintptr_t)a, 8); break; }
 				case 5: { FORM(C_FSD); uint64_t a = x[rs1p] + uD; STORECHK(a, 8); memcpy((void*)(uintptr_t)a, &f[rdp], 8); break; }
-				case 7: { FORM(C_SD); uint64_t a = x[rs1p] + uD; STORECHK(a, 8); memcpy((void*)(uintptr_t)a, &x[rdp], 8); break; }
-				default: STOP(UnknownInsn);   // c.addi4spn, c.sw, illegal
+				default: STOP(UnknownInsn);   // c.addi4spn, c.fld, c.sw, c.sd, illegal
 				}
 			}
 			else if (op == 1) {
@@ -246,13 +245,12 @@ Stop Machine::run(uint64_t entry, uint64_t maxInsns) {
 			case 0x33:
 				if (f7 == 0x00) {
 					switch (f3) {
-					case 0: FORM(ADD); RD(x[rs1] + x[rs2]); break;
 					case 1: FORM(SLL); RD(x[rs1] << (x[rs2] & 63)); break;
 					case 4: FORM(XOR); RD(x[rs1] ^ x[rs2]); break;
 					case 5: FORM(SRL); RD(x[rs1] >> (x[rs2] & 63)); break;
 					case 6: FORM(OR); RD(x[rs1] | x[rs2]); break;
 					case 7: FORM(AND); RD(x[rs1] & x[rs2]); break;
-					default: STOP(UnknownInsn);   // slt, sltu
+					default: STOP(UnknownInsn);   // add (never produced), slt, sltu
 					}
 				}
 				else if (f7 == 0x20 && f3 == 0) { FORM(SUB); RD(x[rs1] - x[rs2]); }
